@@ -25,7 +25,13 @@ def run(tier):
                      "power-of-two widths; elsewhere the round-off clause TolRoundoff = 2^22 ulps of the data scale",
                      "interior = faces whose two neighbouring gradients are interior (non periodic)"],
         mc_runs=[("MC_FVM1D", "MC_FVM1D.cfg" if tier == "quick" else "MC_FVM1D_f.cfg", 16)],
-        groups=[("Judge_FVM1D", recs), ("Judge_FVM2D", recs2)], prefixes=["C11"], sig_of=sig_of)
+        groups=[("Judge_FVM1D", recs), ("Judge_FVM2D", recs2)], prefixes=["C11"], sig_of=sig_of,
+        symbolic=("Apa_Recon", ["InvLinearK", "InvLinearMuscl", "InvConstant", "InvSeam", "InvStencil", "InvMoments"],
+                  "model level, beyond the lattice: Apa_Recon.tla proves with Apalache/Z3, for ALL non-uniform meshes (integer faces, "
+                  "hence every rational mesh), ALL linear profiles and ALL k = kn/kd, that both face states of a cell with interior "
+                  "gradients equal the profile at the face (k-schemes as xnum.extrapolk forms them, MUSCL with any idempotent limiter), "
+                  "that the periodic seam distance is origin independent, and, for ALL data, that the upwind operator on a uniform mesh "
+                  "is the circulant kappa stencil of FVM1D.tla, second order for every k and third order exactly for k = 1/3"))
     return rc
 
 
